@@ -211,6 +211,36 @@ def oracle(ctx, interp, Ad, A, theta, norm, spl, sym, rowsum0, base):
                     if ok and name == 'classical' and abs(sum(row.values()) - 1) > 1e-8:
                         ctx.fail(name + '/row-sum-not-one', 'row %d sums to %r' % (i, sum(row.values())), case)
                         break
+                    # modified classical interpolation first drops strong F-F connections without a common C point
+                    # (they are then lumped like weak ones), so constants are reproduced on every such row
+                    mF = all(Ad[k, k] > 0 and all(Ad[k, j] <= 0 for j in range(n) if j != k) for k in Fi)
+                    if name == 'classical/modified' and mF and abs(sum(row.values()) - 1) > 1e-8:
+                        ctx.fail(name + '/row-sum-not-one', 'row %d sums to %r' % (i, sum(row.values())), case)
+                        break
+    # an explicit threshold (all strength matrices and thresholds): the routine then derives the strength matrix
+    # itself and must ignore the one passed in -- also for theta = 0, where every connection is strong
+    from pyamg.strength import classical_strength_of_connection
+    Cdummy = sp.csr_array(sp.eye_array(n, format='csr'))
+    for th in (0.0, 0.25):
+        for name, f in (('direct', lambda C_, **kw: interp.direct_interpolation(A, C_, spl, **kw)),
+                        ('classical', lambda C_, **kw: interp.classical_interpolation(A, C_, spl, modified=False, **kw)),
+                        ('classical/modified', lambda C_, **kw: interp.classical_interpolation(A, C_, spl, modified=True, **kw))):
+            case = dict(base, routine=name, explicit_theta=th)
+            try:
+                with warnings.catch_warnings(), np.errstate(all='ignore'):
+                    warnings.simplefilter('ignore')
+                    Cth = classical_strength_of_connection(A, theta=th, norm='min')
+                    Pa = sp.csr_array(f(Cdummy, theta=th, norm='min')).toarray()
+                    Pb = sp.csr_array(f(sp.csr_array(Cth))).toarray()
+            except Exception as e:   # noqa
+                ctx.fail(name + '/theta/raises', repr(e), case)
+                continue
+            ctx.count('oracle:explicit-theta')
+            both = np.isfinite(Pa) & np.isfinite(Pb)
+            if Pa.shape != Pb.shape or not np.array_equal(np.isfinite(Pa), np.isfinite(Pb)) or \
+                    _nn(np.abs(Pa[both] - Pb[both]).max(initial=0)) > 1e-12:
+                ctx.fail(name + '/theta-ignored', 'interpolation(theta=%g) differs from interpolation with the strength '
+                         'matrix of that threshold' % th, case)
     # one-point and injection interpolation
     case = dict(base, routine='one_point')
     P1 = sp.csr_array(interp.one_point_interpolation(A, C, spl))
